@@ -73,9 +73,10 @@ class C15:
                     ser = lambda v: " ".join("%d %s" % (c, S(t)) for c, t in v)
                     cases.append(("aggval %s %s | %s" % (how, ser(ov), ser(nv))).replace("  ", " "))
                     dist.add("aggval:%s" % how)
-        # long aggregates: counters, flags and sizes of every width (255 / 256 / 257, 65535 / 65536 / 65537 members), all
+        # long aggregates: counters, flags and sizes of every width (255 / 256 / 257 .. 4097 members), all
         # negative, all without a code, alternating, one non-positive member at the very end / the very beginning
-        lens = [255, 256, 257, 511, 512, 513, 1024] + ([65535, 65536, 65537] if tier == "thorough" else [])
+        # (the extracted model joins texts with list append: quadratic - a few thousand members is what it evaluates in seconds)
+        lens = [255, 256, 257, 511, 512, 513, 1024] + ([2047, 2048, 4096, 4097] if tier == "thorough" else [])
         for n in lens:
             shapes = {"all-negative": [(550, "")] * n, "all-codeless": [(65535, "")] * n,
                       "alternating": [(550, "") if k % 2 else (226, "") for k in range(2 * n)],
